@@ -4,7 +4,7 @@ P=$1; shift
 cd /repo && git diff --quiet || { echo "/repo not clean"; exit 9; }
 git -C /repo apply $P || exit 9
 for c in "$@"; do
-  out=$(cd /verif && VERIF_NOEVIDENCE=1 ./check $c ${TIER:-quick} 2>&1 | grep -E "VIOLATION|KNOWN-FINDING|INCONCLUSIVE| -> " | cut -c1-330 | head -${LINES_MAX:-4})
+  out=$(cd /verif && VERIF_NOEVIDENCE=1 ./check $c ${TIER:-quick} 2>&1 | grep -E "VIOLATION|INCONCLUSIVE| -> " | cut -c1-330 | head -${LINES_MAX:-4})
   echo "== $c: $out"
 done
 git -C /repo checkout -- .
